@@ -162,15 +162,17 @@ func TestKnown(t *testing.T) {
 		c.block(t, A, time.Second, 1)   // height 7 on: A again; head state 5 = (G, G, A)
 		c.prune(t, 3, 4)                // state 3 = (A, G, G) goes; state 4 = (G, G, G) and genesis do not mention A
 		msg, frame := ev.Try(func() { cstate.NewStore(c.db).Load() })
-		which := c.missingSetRecord(c.head)
-		shows := msg != "" && which != ""
+		key, d := c.lostSet(c.head)
 		detail := "Load at the head works"
 		if msg != "" {
-			detail = fmt.Sprintf("Load at head 5 panics in %s (%s); missing record: %s of the head state", frame, msg, which)
+			detail = fmt.Sprintf("Load at head 5 panics in %s (%s): %s", frame, msg, d)
 		}
-		decide(t, keyPrune, shows, c.text(), detail)
-		if msg != "" && which == "" {
-			ev.Violation(t, "panic:"+frame, c.text(), "Load panics: %s", msg)
+		decide(t, keyPrune, msg != "" && key == keyPrune, c.text(), detail)
+		if msg != "" && key != keyPrune {
+			if key == "" {
+				key = "panic:" + frame
+			}
+			ev.Violation(t, key, c.text(), "Load panics: %s %s", msg, d)
 		}
 	}
 	{
@@ -187,12 +189,15 @@ func TestKnown(t *testing.T) {
 		c.block(t, nil, time.Second, 1) // head 7 = (A, A, A)
 		c.prune(t, 1, 4)
 		vs, err := c.store.LoadValidators(7)
-		shows := err != nil && c.missingSetRecord(7) == "LastValidators"
+		key, d := c.lostSet(7)
 		detail := fmt.Sprintf("LoadValidators(7) = %s", snapSet(vs))
 		if err != nil {
-			detail = fmt.Sprintf("LoadValidators(7): %v", err)
+			detail = fmt.Sprintf("LoadValidators(7): %v; %s", err, d)
 		}
-		decide(t, keyPrune, shows, c.text()+"\nLoadValidators(7)", detail)
+		decide(t, keyPrune, err != nil && key == keyPrune, c.text()+"\nLoadValidators(7)", detail)
+		if err != nil && key != keyPrune {
+			ev.Violation(t, "prune.kept-validators-unloadable", c.text(), "LoadValidators(7): %v %s", err, d)
+		}
 	}
 }
 
